@@ -391,9 +391,9 @@ Definition ctl_close : M unit :=
 
 Definition PAYLOAD_TRANSFER_SIZE : Z := 65536.
 
-(* align!(x, uN): (x + (al - 1)) & !(al - 1), debug build: the addition is checked *)
+(* align!(x, uN): x.checked_add(al - 1) & !(al - 1); an overflow is InvalidDevice (commit 03aec4e) *)
 Definition align (w x al : Z) : M Z :=
-  if x + (al - 1) <? 2 ^ w then ret ((x + (al - 1)) - (x + (al - 1)) mod al) else panic.
+  if x + (al - 1) <? 2 ^ w then ret ((x + (al - 1)) - (x + (al - 1)) mod al) else fail CE_INVALID_DEVICE.
 
 Record sirm_plan := {
   sp_size : Z; sp_count : Z; sp_final1 : Z; sp_final2 : Z; sp_leader : Z; sp_trailer : Z
@@ -401,7 +401,7 @@ Record sirm_plan := {
 
 Definition compute_sizes (al req_leader req_payload req_trailer : Z) : M sirm_plan :=
   do pts <- align 32 PAYLOAD_TRANSFER_SIZE al;
-  let count := wrapu 32 (req_payload / pts) in
+  do count <- (if req_payload / pts <? 2 ^ 32 then ret (req_payload / pts) else fail CE_INVALID_DEVICE);
   do f1 <- align 64 (req_payload mod pts) al;
   do ml <- (if req_leader =? 0 then ret pts else align 32 req_leader al);
   do mt <- (if req_trailer =? 0 then ret pts else align 32 req_trailer al);
